@@ -147,8 +147,42 @@ class Dist:
             return Rec(callee, bind(sig, pos, kw, callee))
         return call
 
+    def __call__(self, *pos, **kw):
+        """st.gamma(a, scale=...): a frozen distribution - its methods are the family's methods with these parameters bound"""
+        shapes = SCIPY_SHAPES.get(self.name)
+        tail = ["loc"] if self.name in SCIPY_DISCRETE else ["loc", "scale"]
+        callee = "%s.%s" % (self.prefix, self.name)
+        return Frozen(self, bind(shapes + tail, pos, kw, callee))
+
     def __repr__(self):
         return "%s.%s" % (self.prefix, self.name)
+
+
+class Frozen:
+    _abs_native = True
+
+    def __init__(self, dist, params):
+        self.dist, self.params = dist, dict(params)
+
+    def __getattr__(self, m):
+        if m.startswith("__") or m not in SCIPY_METHODS:
+            raise AttributeError(m)
+        first = SCIPY_METHODS[m]
+        callee = "%s.%s.%s" % (self.dist.prefix, self.dist.name, m)
+        sig = ["size", "random_state"] if m == "rvs" else ([] if first is None else ["<arg>"])
+
+        def call(*pos, **kw):
+            own = bind(sig, pos, kw, callee)
+            clash = set(own) & set(self.params)
+            if clash:
+                raise TypeError("%s got multiple values for %s" % (callee, sorted(clash)))
+            merged = dict(self.params)
+            merged.update(own)
+            return Rec(callee, merged)          # the same record as the unfrozen call with all parameters spelt out
+        return call
+
+    def __repr__(self):
+        return "%r(frozen %s)" % (self.dist, sorted(self.params))
 
 
 class StatsModule:
